@@ -2,4 +2,4 @@
 # Build the harness (verdict lane) offline from files on disk.
 set -e
 cd "$(dirname "$0")"
-./check build rel
+./check build rel chk
